@@ -48,7 +48,7 @@ Definition guard_C09_forest (o : fop) : bool :=
   match o with
   | FMain _ | FHold _ | FAt _ _ | FAddMeas _ _ _ | FFlatten _ _ _ => true
   | FHoldCopy _ _ np _ => Nat.ltb np 2
-  | FInsert _ _ _ _ => false
+  | FInsert _ _ _ _ | FWrapInsert _ _ _ _ _ _ => false
   end.
 Example forest_guard_nonvacuous : forallb guard_C09_forest [FHold [0%nat]; FMain (OMerge []); FAt 0 (OReverse []); FHoldCopy None [] 0 []] = true.
 Proof. reflexivity. Qed.
